@@ -428,8 +428,15 @@ def loaded_state_is_fresh(idx: Index, res: Result, rule: str) -> int:
                                 kept.append(a)
                 else:
                     sources.append(e)
+            def reads_table(e) -> bool:
+                """self.T[k] / self.T.get(k) / self.T.pop(k) / self.slot - an object kept on the adapter (a call of a method of self is not)"""
+                if isinstance(e, ast.Subscript) and (dotted(e.value) or "").startswith("self."):
+                    return True
+                if isinstance(e, ast.Call) and isinstance(e.func, ast.Attribute) and e.func.attr in ("get", "pop", "setdefault") and (dotted(e.func.value) or "").startswith("self."):
+                    return True
+                return isinstance(e, ast.Attribute) and (dotted(e) or "").startswith("self.")
             shared = [e for e in sources if not (isinstance(e, ast.Call) and call_name(e) in ("loads", "load", "deepcopy", "decode", "decompress_settings", "decompress_results"))
-                      and any(isinstance(x, ast.Attribute) and isinstance(x.value, ast.Name) and x.value.id == "self" for x in ast.walk(e))]
+                      and reads_table(e)]
             bad = kept or shared
             res.check(rule, "%s._load_instance hands back a state decoded for this load and kept nowhere else" % cname, not bad, ld.loc((kept or shared)[0]) if bad else ld.loc(c),
                       ld.qual, norm_stmt(kept[0])[:90] if kept else (src(shared[0])[:90] if shared else src(sv_)[:60]),
